@@ -234,8 +234,9 @@ def _cls_of_call(info):
 
 
 def _san_env(tmp):
-    return {"ASAN_OPTIONS": "abort_on_error=1:detect_leaks=0:allocator_may_return_null=1:log_path=%s/san" % tmp,
-            "UBSAN_OPTIONS": "print_stacktrace=0:halt_on_error=0:log_path=%s/san" % tmp}
+    # the recorder's children redirect their stderr to <tmp>/san.<pid>, which is where both sanitizers report
+    return {"ASAN_OPTIONS": "abort_on_error=1:detect_leaks=0:allocator_may_return_null=1",
+            "UBSAN_OPTIONS": "print_stacktrace=0:halt_on_error=0"}
 
 
 def _asan_report(tmp, pid):
